@@ -53,12 +53,14 @@ manifest = {
          "serves_properties": [c["property_id"] for c in checks]},
         {"name": "mirlib+symx", "path": "mirlib/", "kind_free_text": "CFG/dominator/provenance analyses and a path-sensitive finite-domain abstract interpreter over MIR (no execution of repository code)",
          "serves_properties": [c["property_id"] for c in checks]},
-        {"name": "rules", "path": "rules/", "kind_free_text": "one rule module per property generating obligations; vcheck orchestrates",
+        {"name": "rules", "path": "rules/", "kind_free_text": "one rule module per property generating obligations (rules/deps.py: dependency suites shared between properties); vcheck orchestrates",
          "serves_properties": [c["property_id"] for c in checks]},
+        {"name": "witness", "path": "witness/", "kind_free_text": "compile_fail doctests with error codes and no_run twins (cargo +nightly test --doc); informational only, thorough tier, never a verdict",
+         "serves_properties": ["C05", "C06", "C11", "C18", "C20"]},
     ],
     "checks": checks,
     "not_applicable": na,
-    "notes": "Static analysis only. Fix commits in /repo are listed in known_findings.json (fixed entries); open findings there are reported as KNOWN-FINDING lines.",
+    "notes": "Static analysis only. Fix commits in /repo are listed in known_findings.json (fixed entries); open findings there are reported as KNOWN-FINDING lines. selftest/ (mutants, benign edits, mutation sweep, triage oracle) and seeded/ are self-test material for the checkers and are not part of any registered command.",
 }
 with open(os.path.join(VERIF, "MANIFEST.json"), "w") as f:
     json.dump(manifest, f, indent=1)
